@@ -216,6 +216,9 @@ structure Cfg where
   futureThr : Int := 0
   eventDriven : Bool := true
   excluded : List String := []
+  /-- `cache.WithServerName`: when non-empty, `cache.New` registers the `serverName` string
+  metadata (`ResetAction: Keep`) and `Cache.Add` sets it on every new target -/
+  serverName : String := ""
 deriving Repr, Inhabited
 
 structure Target where
@@ -224,6 +227,11 @@ structure Target where
   sync : Bool := false            -- `Target.sync`
   latest : Option Int := none     -- `Target.ts`; `none` = the zero `time.Time`
   md : Meta := {}
+  /-- `meta.valuesStr["serverName"]`: the one string of the metadata object that is registered with
+  `ResetAction: Keep`.  It is held beside `md` because `Metadata.Clear` (`md := Meta.clear`) leaves it
+  alone (`Props/C14Meta.clear_abs`, `keep_survives`); `none` = not registered / never set (the cache
+  was created without `WithServerName`). -/
+  serverName : Option String := none
 deriving Repr, Inhabited
 
 inductive Res where
@@ -525,6 +533,15 @@ def genMetaOne (cfg : Cfg) (enc : String → String) (now : Int) (emit : Bool)
     | some nd => (r.2.1, if emit then acc.2 ++ [Event.upd nd] else acc.2)
     | none => (r.2.1, acc.2)
 
+/-- the step of the third loop of `generateMetaUpdates` for the optional `serverName` string
+(present in `metadata.TargetStrValues` only for a cache created `WithServerName`) -/
+def genServerName (cfg : Cfg) (enc : String → String) (now : Int) (emit : Bool)
+    (acc : Target × List Event) : Target × List Event :=
+  match acc.1.serverName with
+  | some v => genMetaOne cfg enc now emit acc "serverName" (.str v)
+      (fun sv => match sv with | .scalar (.str s) => s == v | _ => false)
+  | none => acc
+
 /-- `generateMetaUpdates` -/
 def Target.generateMetaUpdates (cfg : Cfg) (enc : String → String) (now : Int) (emit : Bool)
     (t : Target) : Target × List Event :=
@@ -538,11 +555,12 @@ def Target.generateMetaUpdates (cfg : Cfg) (enc : String → String) (now : Int)
     | some v => genMetaOne cfg enc now emit acc name (.int v)
         (fun sv => match sv with | .scalar (.int i) => i == v | _ => false)
     | none => acc) a
-  strNames.foldl (fun acc name =>
+  let c := strNames.foldl (fun acc name =>
     match acc.1.md.getStr name with
     | some v => genMetaOne cfg enc now emit acc name (.str v)
         (fun sv => match sv with | .scalar (.str s) => s == v | _ => false)
     | none => acc) b
+  genServerName cfg enc now emit c
 
 /-- `Target.updateMeta(clients)` -/
 def Target.updateMeta (cfg : Cfg) (enc : String → String) (now : Int) (emit : Bool) (t : Target) :
@@ -580,8 +598,21 @@ def State.set (s : State) (name : String) (t : Target) : State :=
     { s with targets := s.targets.map (fun kv => if kv.1 == name then (name, t) else kv) }
   else { s with targets := s.targets ++ [(name, t)] }
 
-/-- `Cache.Add` (replaces an existing target by a fresh one) -/
+/-- `Cache.Add` (replaces an existing target by a fresh one) of a cache created without
+`WithServerName`: `t.meta.SetStr(ServerName, "")` fails (the name is not registered) -/
 def State.add (s : State) (name : String) : State := s.set name { name := name }
+
+/-- `Cache.Add` in general: `t.meta.SetStr(ServerName, c.opts.serverName)` succeeds exactly when
+`cache.New` registered the name, i.e. when the cache has a server name.  (`State.add` is the
+special case `cfg.serverName = ""`, `addWith_plain`; it is kept as it was so that the history
+theorems stated over `State.step` are untouched.) -/
+def State.addWith (s : State) (name : String) : State :=
+  s.set name { name := name,
+               serverName := if s.cfg.serverName = "" then none else some s.cfg.serverName }
+
+theorem State.addWith_plain (s : State) (name : String) (h : s.cfg.serverName = "") :
+    s.addWith name = s.add name := by
+  simp [State.addWith, State.add, h]
 
 /-- `Cache.Remove`: always announces the whole-target delete -/
 def State.remove (s : State) (name : String) (now : Int) : State × List Event :=
